@@ -21,6 +21,7 @@ fn main() {
         let res = match fields[0] {
             "cell" => cell::run(&fields[1..]),
             "run" => run::run(&fields[1..]),
+            "runs" => run::runs(&fields[1..]),
             "dumpir" => run::dumpir(&fields[1..]),
             "dumpbc" => run::dumpbc(&fields[1..]),
             "heldbc" => run::heldbc(&fields[1..]),
